@@ -533,6 +533,9 @@ def run(c, prog, ctx):
             if ok:
                 used[(d, key)] = used.get((d, key), 0) + 1
                 per_rule["T"] = per_rule.get("T", 0) + 1
+                if os.environ.get("VF_C10_DUMP_TABLED"):
+                    with open(os.environ["VF_C10_DUMP_TABLED"], "a") as gh:
+                        gh.write("%s\t%s\t%s\n" % (d, key, " && ".join("%s=%s" % (detag(dd), ll) for dd, ll in cond_desc(b, lf.g.conds(s.bb)))))
             c.inst("R1.panic-site", "%s#%d" % (key, cnt), ok,
                    ("tabled: " + ent[1]) if ok else
                    ("the guard(s) %s that justified this tabled site (%s) no longer dominate it" % (gmiss, ent[1])) if gmiss else
